@@ -209,7 +209,8 @@ def rule_is_valid_agrees_with_build(col, facts, crate):
                         pc = path_conditions(f, i)
                         if pc:
                             _d, e, p = pc[-1]
-                            out.append((G.norm(strip_casts(e)), p, f.loc(st[3])))
+                            from rules.core import simplify_proj as _sp
+                            out.append((G.norm(strip_casts(_sp(strip_casts(e)))), p, f.loc(st[3])))
         return out
     rb = rejecting(fb, "Err")
     rv_ = rejecting(fv, False)
@@ -267,6 +268,8 @@ def rule_is_valid_agrees_with_build(col, facts, crate):
     all_calls_v = set()
     for _b, c, _a, _d, _t in fv.calls():
         all_calls_v.add(last_seg(callee_name(c)))
+        for x in _a:
+            tested_fields |= fields_of(op_expr(fv, x))          # `is_valid_ascii(self.exponent)` as an operand of `&&`
         for h in facts.by_short.get(callee_name(c), []):
             if h.crate == fv.crate:
                 tested_fields |= helper_fields(h)
